@@ -229,7 +229,8 @@ func c08(c *Ctx) {
 
 // c08Wire: the bytes that actually reach the socket, for calls made on a connected client.
 func c08Wire(c *Ctx) {
-	sess, err := newSession(nil, nil)
+	// Config.Timeout small: now and then the peer stops reading in the middle of a line for longer than that
+	sess, err := newSession(func(cfg *client.Config) { cfg.Timeout = 150 * time.Millisecond }, nil)
 	if err != nil {
 		c.Res.Inconclusive++
 		return
@@ -262,6 +263,9 @@ func c08Wire(c *Ctx) {
 			up = drv.H(strings.ToUpper(a[1]))
 		}
 		before := len(sess.srv.Raw())
+		if i%97 == 5 || i%97 == 50 {
+			sess.srv.StallNextWrite(c.R.Range(1, 9), 400*time.Millisecond)
+		}
 		c.Journal(fmt.Sprintf("C08 wire: %s(%q, %q)", m.name, truncAll(a, 30), truncAll(v, 30)))
 		callCmd(sess.conn, m.name, a, v)
 		if !sess.sync(10 * time.Second) {
